@@ -126,7 +126,8 @@ typedef struct ccfg {
 } ccfg;
 static ccfg *CC[2];
 static int   NCC[2];
-// configurations of the schedule exploration (window around send..reply)
+// configurations of the schedule exploration (window around the submission and
+// forwarding of both requests and around each reply)
 static ccfg CS[] = {
 	{ 1, { 8, 8 }, 0 },
 	{ 1, { 8, 8 }, 1 },
@@ -215,7 +216,8 @@ run_chain(void *arg)
 	char out[120];
 	int  oo = snprintf(out, sizeof(out), "%s %s:", f->name,
 	     must_deliver ? "within" : must_drop ? "beyond" : "boundary");
-	int rounds = sched ? 1 : 2;
+	int  rounds   = sched ? 1 : 2;
+	char order[3] = "--"; // arrival order at the back socket (round 1)
 	for (int rd = 0; rd < rounds; rd++) {
 		for (int j = 0; j < 2; j++) {
 			rq *r  = &R[j];
@@ -260,13 +262,18 @@ run_chain(void *arg)
 			if (!sched)
 				vs_settle();
 		}
+		// (schedule exploration: the forwarding through the devices runs
+		// inside the window)
+		if (sched) {
+			vs_settle();
+			vs_window(0);
+		}
 		// the replier / respondent
 		int served = 0;
 		for (int round = 0; round < 12 && served < 2; round++) {
 			nng_msg *m  = NULL;
 			int      rv = nng_recvmsg(back, &m, NNG_FLAG_NONBLOCK);
 			if (rv == NNG_EAGAIN) {
-				vs_window(0);
 				vs_sleep(5);
 				vs_settle();
 				continue;
@@ -282,6 +289,8 @@ run_chain(void *arg)
 				vs_fail("C13:chain:body-changed",
 				    "[%s] round %d: request arrived with body %s", desc, rd,
 				    vh_hex(nng_msg_body(m), nng_msg_len(m)));
+			if (rd == 0 && served < 2)
+				order[served] = (char) ('A' + (r - R));
 			if (r->arrived++)
 				vs_fail("C13:chain:duplicate",
 				    "[%s] round %d: request %d arrived twice", desc, rd,
@@ -291,11 +300,13 @@ run_chain(void *arg)
 				    "[%s] a request that crossed %d devices was delivered", desc,
 				    k);
 			VH_OK(nng_msg_append(m, "-re", 3));
+			if (sched)
+				vs_window(1);
 			rv = nng_sendmsg(back, m, 0);
 			if (rv != 0)
 				vs_fail("harness:back-send", "[%s] reply send -> %d", desc, rv);
-			if (!sched)
-				vs_settle();
+			vs_settle();
+			vs_window(0);
 			served++;
 		}
 		vs_window(0);
@@ -365,8 +376,11 @@ run_chain(void *arg)
 			    r->res == 0 ? "reply" : "timeout");
 		}
 	}
-	vs_log("%s -> %s", desc, out);
-	vs_outcome("%s", out);
+	vs_log("%s -> %s (arrival %s)", desc, out, order);
+	if (sched)
+		vs_outcome("%s %s", out, order);
+	else
+		vs_outcome("%s", out);
 	g_teardown = 1;
 	for (int j = 0; j < 2; j++) {
 		nng_aio_free(R[j].saio);
@@ -963,10 +977,17 @@ main(int argc, char **argv)
 	explore("loop-survey", run_loop, (void *) 1);
 	explore("backtrace", run_bt, NULL);
 	// thread interleavings of two concurrent requests through one/two devices
-	explore_b("chain-reqrep-sched", run_chain, (void *) (intptr_t) 0x10,
-	    T ? 2 : 1, T ? 2 : 1, T ? 2 : 1, T ? 400 : 30);
-	explore_b("chain-survey-sched", run_chain, (void *) (intptr_t) 0x11,
-	    T ? 2 : 1, T ? 2 : 1, T ? 2 : 1, T ? 400 : 30);
+	{
+		// budgets: preemptions, switches at blocking points, total deviations
+		int sp = 1, ssw = T ? 3 : 1, st = T ? 3 : 1;
+		explore_b("chain-reqrep-sched", run_chain, (void *) (intptr_t) 0x10, sp,
+		    ssw, st, T ? 300 : 30);
+		explore_b("chain-survey-sched", run_chain, (void *) (intptr_t) 0x11, sp,
+		    ssw, st, T ? 300 : 30);
+		vx_note("schedules", "window around submission+forwarding of both "
+		                     "requests and around each reply; preempt<=%d switch<=%d total<=%d",
+		    sp, ssw, st);
+	}
 	vx_note("chains",
 	    "reqrep %d, survey %d configurations: k in 0..TTL+2 (survey <= %d) x TTL "
 	    "%s x {2 sockets, 2 contexts} + one socket with its own TTL at every "
